@@ -5,6 +5,7 @@ import FeatModel.Lemmas.C16_identities
 import FeatModel.Lemmas.C16_banded
 import FeatModel.Lemmas.C16_burgers
 import FeatModel.Lemmas.C16_blocked
+import FeatModel.Lemmas.C16_history
 /-!
 # C16 — property theorems (statements only; proofs live in Lemmas/C16_*.lean)
 
@@ -291,3 +292,35 @@ example :
     (assembleB (α := Int) ⟨2, 2, [0, 2, 4], [0, 1, 0, 1]⟩ 4
       [⟨1, [0, 1], [0, 1], fun i j => [1, (i : Int) + 2 * j, 0, 1]⟩, ⟨2, [1], [1], fun _ _ => [1, 5, 0, 1]⟩]).map
       (fun st => st.data.toList) = some [[1, 0, 0, 1], [1, 2, 0, 1], [1, 1, 0, 1], [3, 13, 0, 3]] := by decide
+
+/-- **history_independent**: a sequence of assembler calls served by one process — the only state the model lets survive a
+call is the freed, never initialised `_col_ptr` scratch array, which the next scatter object may get back with arbitrary
+old content — yields for every request exactly the value of that request assembled alone, for every initial heap content
+and every sequence of requests whose couplings are covered by their patterns: "same result for the same input, for
+every history". An implementation whose result depends on earlier calls (a cached cubature rule, a kept local matrix, …)
+disagrees with this model in the `history` correspondence stream. -/
+theorem C16.history_independent {α : Type} [Add α] [Mul α] [Zero α] (leftover : Array (Option Nat))
+    (reqs : List (Request α)) (hcov : ∀ r ∈ reqs, r.covered = true) :
+    assembleSeq leftover reqs = reqs.map fun r => (assemble r.p r.calls).map (·.data) :=
+  C16L.assembleSeq_eq leftover reqs hcov
+
+/-- on the symbolic pattern every request built from the DOF tables is covered, so the hypothesis of
+`history_independent` holds for all assembly routes of C16 -/
+theorem C16.history_independent_symbolic {α : Type} [Add α] [Mul α] [Zero α] (nT nS : Nat) (tm sm : List (List Nat)) (g : Graph)
+    (hg : symbolicGraph2 nT nS tm sm = some g)
+    (hT : ∀ l ∈ tm, ∀ r ∈ l, r < nT) (hS : ∀ l ∈ sm, ∀ s ∈ l, s < nS)
+    (leftover : Array (Option Nat)) (reqs : List (List (CellCall α)))
+    (hreqs : ∀ calls ∈ reqs, ∀ c ∈ calls, ∃ k, c.rowMap = tm.getD k [] ∧ c.colMap = sm.getD k []) :
+    assembleSeq leftover (reqs.map fun calls => ⟨Pattern.ofGraph g, calls⟩) =
+      reqs.map fun calls => (assemble (Pattern.ofGraph g) calls).map (·.data) := by
+  rw [C16.history_independent, List.map_map]
+  · rfl
+  · intro r hr
+    obtain ⟨calls, hc, rfl⟩ := List.mem_map.mp hr
+    simp only [Request.covered, List.all_eq_true]
+    exact fun c hcc => C16L.symbolic_covered nT nS tm sm g hg hT hS c (hreqs calls hc c hcc)
+
+/-- stale scratch content from an earlier call (slot 1 points to position 0) does not change a covered assembly -/
+example :
+    assembleSeq (α := Int) #[some 7, some 0] [⟨⟨2, 2, [0, 1, 3], [0, 0, 1]⟩, [⟨1, [1], [1, 0], fun _ j => (j : Int) + 1⟩]⟩] =
+      [some #[0, 2, 1]] := by decide
